@@ -110,13 +110,14 @@ Proof.
 Qed.
 
 (* THE BORDERLINE VERDICT NEEDS A DECISION INSIDE THE WINDOW: judge_linear cannot return code 1 when no
-   floor/ceil decision - of Ticks on the (ordered) domain, of the per-level observations, of Nice on the
+   floor/ceil decision - of Ticks on the (ordered) domain, of the per-level observations (whose counts are int64 values), of Nice on the
    start domain, of Ticks and Nice on the observed new domain - lies inside the near_round window *)
 Theorem linear_borderline_needs_window c t p d eb : judge_linear c = verdict 1 t p d -> lin_ebase (sc_base c) = Some eb ->
   exists ao bo, so_nmin (sc_ob c) = XFin ao /\ so_nmax (sc_ob c) = XFin bo /\
   let base := sc_base c in let mn := sc_mn c in let mx := sc_mx c in
   ~ ((forall l, lin_amb_level base eb (fst (lin_order mn mx)) (snd (lin_order mn mx)) false l = false) /\
      (forall l, lin_amb_level base eb mn mx false l = false) /\
+     (forall lv, In lv (so_levels (sc_ob c)) -> (lv_count lv <= MAXINT)%Z) /\
      (forall l, lin_amb_level base eb (fst (lin_start mn mx)) (snd (lin_start mn mx)) true l = false) /\
      (forall l, lin_amb_level base eb (fst (lin_order ao bo)) (snd (lin_order ao bo)) false l = false) /\
      (forall l, lin_amb_level base eb (fst (lin_start ao bo)) (snd (lin_start ao bo)) true l = false)).
@@ -124,11 +125,11 @@ Proof.
   intros H He. destruct (judge_linear_groups c 1%Z t p d eb H (or_intror eq_refl) He) as (ao & bo & Gs).
   exists ao, bo. pose proof (judge_linear_border_witness c t p d eb ao bo H He Gs) as Wt. cbv zeta in Wt.
   destruct Gs as [t1 t2 t3 t4 t5 t6 t7 Fin K10 K20 K21 K30 K35 K36 K37 b1 b2 K40 K41 K43 K45]. subst t1 t2 t3 t4 t5 t6 t7 b1 b2.
-  split; [exact (proj1 Fin)|]. split; [exact (proj2 Fin)|]. cbv zeta. intros (W1 & W1' & W2 & W3 & W4).
+  split; [exact (proj1 Fin)|]. split; [exact (proj2 Fin)|]. cbv zeta. intros (W1 & W1' & Wi & W2 & W3 & W4).
   assert (G : forall E A, gok 1 E A -> E = false -> A = true) by (intros E A [K|(_ & _ & K)] F; [congruence | exact K]).
   destruct Wt as [F|[F|[F|[F|F]]]].
   - pose proof (lin_ticks_A_E _ _ _ _ _ _ _ _ _ He W1 (G _ _ K10 F)). congruence.
-  - destruct (lin_levels_borderline_in_window _ _ _ _ _ _ F (G _ _ K20 F)) as (lv & _ & _ & _ & A). rewrite W1' in A. discriminate.
+  - destruct (lin_levels_borderline_in_window _ _ _ _ _ _ Wi F (G _ _ K20 F)) as (lv & _ & _ & _ & A). rewrite W1' in A. discriminate.
   - pose proof (lin_nice_A_E _ _ _ _ _ _ _ _ _ He W2 (G _ _ K30 F)). congruence.
   - pose proof (lin_ticks_A_E _ _ _ _ _ _ _ _ _ He W3 (G _ _ K36 F)). congruence.
   - pose proof (lin_nice_A_E _ _ _ _ _ _ _ _ _ He W4 (G _ _ K37 F)). congruence.
